@@ -425,6 +425,10 @@ func packSkeleton(r *Rng, base string, mt *int64) []Node {
 		if kind == 'd' {
 			n.Perm = 0o755
 		}
+		if kind == 'r' && r.chance(1, 40) {
+			// a time before the epoch, or beyond what a nanosecond count in 64 bits reaches: archived as it is
+			n.Mtime = []int64{-5, -86400 * 365, 9223372037, 1 << 36}[r.intn(4)]
+		}
 		out = append(out, n)
 	}
 	if r.chance(2, 3) { // deep climb: a/b/c/... followed by a/d, then top-level entries
